@@ -178,7 +178,7 @@ theorem C13_fragment_replacement_is_certified (cfg : Config) (wd : String → Na
           simpa using hne
         rw [hk] at hrun
         simp only [Bool.false_eq_true, ↓reduceIte, hx'] at hrun
-        have hc := (knot_frag _ _).expr _ _ (hmode _ _ _ hcov) hx hq _ _ _ hrun
+        have hc := (knot_frag _ _).1.expr _ _ (hmode _ _ _ hcov) hx hq _ _ _ hrun
         obtain ⟨hg, hs⟩ := hc
         unfold rangeCertified Twin.Doc.toks Twin.Doc.cmts Twin.Doc.prose Twin.Doc.lits Twin.Doc.verbs
         rw [hg, hs]
